@@ -4,5 +4,6 @@ CONSTANTS Depth = 7
   Spacings = {1, 2, 31, 32, 33, 70}
   Scripts = {"none", "co1", "co31", "co32", "co33", "co64", "rmh", "fdh", "rmn", "fdn", "err", "co32err", "dest", "co32x2"}
   MaxSched = 4
+  Sim = TRUE
 INVARIANT Emit
 CHECK_DEADLOCK FALSE
